@@ -3,21 +3,11 @@ Name lengths for C11: how long a fork directory name / a journal file name is
 as a function of the map key (model: Martian/ForkName.lean).  Core Lean only.
 -/
 import Martian.ForkName
+import Martian.ForkNameBatch
 import Proofs.ForkName
 import Gen.Facts
 
 namespace Martian.ForkName
-
-/-- `NAME_MAX` of the file systems martian runs on: a single path component
-longer than this makes `mkdir` / `open` fail with ENAMETOOLONG. -/
-def nameMax : Nat := 255
-
-/-- number of bytes of a key that `url.PathEscape` percent-encodes -/
-def escCount (k : Bytes) : Nat := k.countP shouldEscape
-
-/-- directory name of the fork for map key `k` of a singly mapped call
-(`mapKeyFork.forkString`): `fork_` ++ makeKeySafe(k) -/
-def mapForkDir (k : Bytes) : Bytes := sForkU ++ pathEscape k
 
 theorem escByte_length (c : UInt8) : (escByte c).length = if shouldEscape c then 3 else 1 := by
   unfold escByte pctEncode
